@@ -70,25 +70,25 @@ CHECKS = {
    text="Partial. Theorems: a token list whose members re-lex one by one re-lexes as a whole (any length), with per-class conditions on what may follow an identifier, keyword, string, long bracket, number, minus sign, `[`, line comment; "
         "on every layout path no unary minus meets a minus sign and printed expressions re-parse to themselves. Not proved: acceptance by full_moon's statement parser. Validation: every output of generated programs x configurations (x ranges, sort) "
         "re-parsed by full_moon; the Coq lexer model compared with full_moon's tokenizer on every input and output. "
-        "L0 (Fmt0.v): a whole-formatter model on a fragment of Lua 5.1 (every statement kind but goto/labels; expressions without function bodies; long-bracket strings on one line (not as the first thing of an index or key); escapes, all quote styles, statement-level line comments and empty lines; call sugar; tables written over several lines (nested indentation inside expressions) with comments and empty lines between their fields; the whitespace, quote, call_parentheses, space_after_function_names and collapse_simple_statement options), tied to the binary byte for byte on every run (svh l0 x drv_l0). On L0: the text format0 prints lexes back to exactly the printed tokens (format0_relexes, through the proven adjacent-token checker LexAdj.adj_relex); the semicolon rule regenerated from block.rs keeps the semicolon wherever the next statement would be absorbed.",
+        "L0 (Fmt0.v): a whole-formatter model on a fragment of Lua 5.1 (every statement kind but goto/labels; expressions without function bodies; long-bracket strings on one line (with the blank that keeps one away from the brackets of an index or key); escapes, all quote styles, statement-level line comments and empty lines; call sugar; tables written over several lines (nested indentation inside expressions) with comments and empty lines between their fields; the whitespace, quote, call_parentheses, space_after_function_names and collapse_simple_statement options), tied to the binary byte for byte on every run (svh l0 x drv_l0). On L0: the text format0 prints lexes back to exactly the printed tokens (format0_relexes, through the proven adjacent-token checker LexAdj.adj_relex); the semicolon rule regenerated from block.rs keeps the semicolon wherever the next statement would be absorbed.",
    design="5/C01", technique="Coq proof (lexer round trip, expression side conditions) + re-parse of every output + lexer-model differential + L0 whole-formatter model (byte-for-byte tie) + regenerated semicolon rule and `- -` guard (rs2v)",
    note=BASE_NOTE + "Seed-driven exploration only where established clean (comments at statement boundaries); a fixed regression set with comments anywhere has its failures listed per input (known finding F-C01-baseline)."),
  "C02": dict(
    text="Partial. Theorems: the parenthesis rule preserves the semantic tree on every layout path and its output re-parses to it; string and number rewriting preserve denotations; the erasure ignores exactly whitespace, comments, parentheses, semicolons, commas. "
         "Validation: erased token sequence (Coq lexer + denotations) and an AST normal form independent of --verify compared between input and output on generated programs x configurations x ranges. "
-        "L0 (Fmt0.v): a whole-formatter model on a fragment of Lua 5.1 (every statement kind but goto/labels; expressions without function bodies; long-bracket strings on one line (not as the first thing of an index or key); escapes, all quote styles, statement-level line comments and empty lines; call sugar; tables written over several lines (nested indentation inside expressions) with comments and empty lines between their fields; the whitespace, quote, call_parentheses, space_after_function_names and collapse_simple_statement options), tied to the binary byte for byte on every run (svh l0 x drv_l0). On L0: the output has the erased token sequence of the program and every expression keeps its grouping (format0_keeps_erasure, nexp_keeps_grouping); the regenerated semicolon rule equals its specification.",
+        "L0 (Fmt0.v): a whole-formatter model on a fragment of Lua 5.1 (every statement kind but goto/labels; expressions without function bodies; long-bracket strings on one line (with the blank that keeps one away from the brackets of an index or key); escapes, all quote styles, statement-level line comments and empty lines; call sugar; tables written over several lines (nested indentation inside expressions) with comments and empty lines between their fields; the whitespace, quote, call_parentheses, space_after_function_names and collapse_simple_statement options), tied to the binary byte for byte on every run (svh l0 x drv_l0). On L0: the output has the erased token sequence of the program and every expression keeps its grouping (format0_keeps_erasure, nexp_keeps_grouping); the regenerated semicolon rule equals its specification.",
    design="5/C02", technique="Coq proof on the meaning-changing kernels + erasure / normal-form comparison judged by extracted functions + L0 whole-formatter model (byte-for-byte tie) + regenerated semicolon rule and collapse rule",
    note=BASE_NOTE + "Regions as for C01 (known finding F-C02-baseline)."),
  "C03": dict(
    text="Partial. Theorems: load_token_trivia (leading and trailing modes) keeps every comment exactly once with only the allowed normalisation, terminates every leading comment with a newline; the census sees comments only. "
         "Tie: every traced call of the real function is replayed through the model. Validation: comment census of input vs output on generated programs x configurations x ranges x sort. "
-        "L0 (Fmt0.v): a whole-formatter model on a fragment of Lua 5.1 (every statement kind but goto/labels; expressions without function bodies; long-bracket strings on one line (not as the first thing of an index or key); escapes, all quote styles, statement-level line comments and empty lines; call sugar; tables written over several lines (nested indentation inside expressions) with comments and empty lines between their fields; the whitespace, quote, call_parentheses, space_after_function_names and collapse_simple_statement options), tied to the binary byte for byte on every run (svh l0 x drv_l0). On L0: the comments of the output are exactly those of the program, each once, in order (format0_comments_exact).",
+        "L0 (Fmt0.v): a whole-formatter model on a fragment of Lua 5.1 (every statement kind but goto/labels; expressions without function bodies; long-bracket strings on one line (with the blank that keeps one away from the brackets of an index or key); escapes, all quote styles, statement-level line comments and empty lines; call sugar; tables written over several lines (nested indentation inside expressions) with comments and empty lines between their fields; the whitespace, quote, call_parentheses, space_after_function_names and collapse_simple_statement options), tied to the binary byte for byte on every run (svh l0 x drv_l0). On L0: the comments of the output are exactly those of the program, each once, in order (format0_comments_exact).",
    design="5/C03", technique="Coq proof of the comment gate + replay of traced calls + census comparison + L0 whole-formatter model (byte-for-byte tie) + regenerated if-guard test and collapse rule",
    note=BASE_NOTE + "About 150 other sites build trivia and are only validated. Regions as for C01 (known finding F-C03-baseline)."),
  "C06": dict(
    text="Partial. Theorems: every kernel that rewrites text or reorders is idempotent (quote rewrite, quote choice, newline conversion, comment trimming, require-group sorting). Whole-program idempotence is validated on a fixed regression set only "
         "(second pass byte-compared); its known non-idempotent inputs are listed per input. "
-        "L0 (Fmt0.v): a whole-formatter model on a fragment of Lua 5.1 (every statement kind but goto/labels; expressions without function bodies; long-bracket strings on one line (not as the first thing of an index or key); escapes, all quote styles, statement-level line comments and empty lines; call sugar; tables written over several lines (nested indentation inside expressions) with comments and empty lines between their fields; the whitespace, quote, call_parentheses, space_after_function_names and collapse_simple_statement options), tied to the binary byte for byte on every run (svh l0 x drv_l0). On L0: normalisation is not idempotent (refutation theorem with witness `local x = (- -f())`, replayed on the binary: known finding), and it IS idempotent - both passes, so formatting the written tree again gives the same bytes - "
+        "L0 (Fmt0.v): a whole-formatter model on a fragment of Lua 5.1 (every statement kind but goto/labels; expressions without function bodies; long-bracket strings on one line (with the blank that keeps one away from the brackets of an index or key); escapes, all quote styles, statement-level line comments and empty lines; call sugar; tables written over several lines (nested indentation inside expressions) with comments and empty lines between their fields; the whitespace, quote, call_parentheses, space_after_function_names and collapse_simple_statement options), tied to the binary byte for byte on every run (svh l0 x drv_l0). On L0: normalisation is not idempotent (refutation theorem with witness `local x = (- -f())`, replayed on the binary: known finding), and it IS idempotent - both passes, so formatting the written tree again gives the same bytes - "
         "for every program in which no unary minus is written directly in front of something that starts with a unary minus, `- -x` (Fmt0Idem.norm0_idempotent; the premise is a boolean predicate, extracted, counted per record); what format0 writes always meets the premise, so the second pass is ALWAYS a fixed point (norm0_second_pass_is_a_fixed_point: a third pass changes nothing on any program; the tie runs the library's third pass wherever its second differs); "
         "the tie compares the library's SECOND pass byte for byte with the model's on every record, so on the fragment a second-pass difference the model does not predict is a violation under any seed. "
         "Regenerated from the source on every run and proved against the model: the `- -` guard (parenthesise_double_minus) and the condition rule (remove_condition_parentheses: one pass leaves no removable layer).",
@@ -97,7 +97,7 @@ CHECKS = {
  "C10": dict(
    text="Partial. Theorems: the comment gate emits only the configured line ending inside block comments, trims line comments idempotently, the conversion is idempotent. Validation: the whitespace discipline (every newline in the configured form, no other CR, "
         "indentation of the configured kind, one final line ending) evaluated by the extracted checker on every output of generated programs (LF, CRLF, mixed) x configurations; both regions clean. "
-        "L0 (Fmt0.v): a whole-formatter model on a fragment of Lua 5.1 (every statement kind but goto/labels; expressions without function bodies; long-bracket strings on one line (not as the first thing of an index or key); escapes, all quote styles, statement-level line comments and empty lines; call sugar; tables written over several lines (nested indentation inside expressions) with comments and empty lines between their fields; the whitespace, quote, call_parentheses, space_after_function_names and collapse_simple_statement options), tied to the binary byte for byte on every run (svh l0 x drv_l0). On L0: the printed tokens pass the newline and indentation discipline for every program and configuration (format0_whitespace_discipline), and a non-empty output ends with exactly one line ending, byte level, for every well-formed program (Fmt0Eof.format0_ends_with_one_line_ending; the empty program gives the empty output); the regenerated line-ending / indentation creators of context.rs satisfy the discipline.",
+        "L0 (Fmt0.v): a whole-formatter model on a fragment of Lua 5.1 (every statement kind but goto/labels; expressions without function bodies; long-bracket strings on one line (with the blank that keeps one away from the brackets of an index or key); escapes, all quote styles, statement-level line comments and empty lines; call sugar; tables written over several lines (nested indentation inside expressions) with comments and empty lines between their fields; the whitespace, quote, call_parentheses, space_after_function_names and collapse_simple_statement options), tied to the binary byte for byte on every run (svh l0 x drv_l0). On L0: the printed tokens pass the newline and indentation discipline for every program and configuration (format0_whitespace_discipline), and a non-empty output ends with exactly one line ending, byte level, for every well-formed program (Fmt0Eof.format0_ends_with_one_line_ending; the empty program gives the empty output); the regenerated line-ending / indentation creators of context.rs satisfy the discipline.",
    design="5/C10", technique="Coq proof of the comment gate's whitespace + extracted whitespace-discipline checker on every output + L0 whole-formatter model (byte-for-byte tie) + regenerated creators",
    note=BASE_NOTE + "Ignored / out-of-range text is excluded by not generating directives and ranges here."),
  "C11": dict(
